@@ -3,7 +3,7 @@
 PLAN_ENTRY = {'stages': [
     {'name': 'section',
      'mc': [{'module': 'MC_C13', 'cfg': {'quick': 'MC_C13_quick.cfg', 'thorough': 'MC_C13_thorough.cfg'}, 'workers': 4}],
-     'gens': ['gen_c13_random'],
+     'gens': ['gen_c13_random', 'gen_c13_special'],
      'trace': 'Trace_Section'}],
     'assumptions': [
         'TLC evaluates the exact crossing points / face segments of Section.tla correctly',
@@ -46,4 +46,44 @@ def gen_c13_random(rnd, tier):
         op = rnd.choice(('section', 'split'))
         out.append({'m': 'section', 'op': op, 'wd': 4000, 'name': 'rbox', 'vpos': vpos, 'faces': BOXF,
                     'convex': True, 'n': nrm, 'dn': dn, 'dd': 8, 'T': T, 'sc': rnd.choice((0, 0, -10, -7, 3)), 'solid': rnd.choice((0, 0, 1, 2)) if op == 'split' else rnd.choice((0, 1))})     # (a hull is re-triangulated: only the split clauses apply to it)
+    return out
+
+
+IDENT = {'M': [[1, 0, 0], [0, 1, 0], [0, 0, 1]], 'H': 1, 't': [0, 0, 0]}
+
+
+def _box(x0, y0, w, h, d, base):
+    v = [[x0, y0, 0], [x0 + w, y0, 0], [x0, y0, d], [x0 + w, y0, d], [x0, y0 + h, 0], [x0 + w, y0 + h, 0], [x0, y0 + h, d], [x0 + w, y0 + h, d]]
+    return v, [[a + base, b + base, c + base] for a, b, c in BOXF]
+
+
+def gen_c13_special(rnd, tier):
+    """(1) a convex prism with 80 sides cut across its axis: one closed loop of 160 segments (more than any small-input code path
+    handles); (2) a flat 8 x 8 x 2 box and a 1 x 1 x 2 column cut by one plane with a curve tolerance of 1.5 units: the loop
+    around the column collapses to one point and may be left out, the loop around the box must come back intact"""
+    import math
+    out = []
+    vecs = sorted({(a, b) for a in range(-5, 6) for b in range(-5, 6) if (a or b) and math.gcd(abs(a), abs(b)) == 1},
+                  key=lambda v: math.atan2(v[1], v[0]))
+    ring = [[0, 0]]
+    for a, b in vecs[:-1]:
+        ring.append([ring[-1][0] + a, ring[-1][1] + b])
+    mx, my = min(p[0] for p in ring), min(p[1] for p in ring)
+    ring = [[p[0] - mx, p[1] - my] for p in ring]
+    n = len(ring)
+    vpos = [[p[0], p[1], 0] for p in ring] + [[p[0], p[1], 2] for p in ring]
+    faces = []
+    for i in range(n):
+        j = (i + 1) % n
+        faces += [[i, j, n + j], [i, n + j, n + i]]              # sides, outward for a counter-clockwise ring
+    for i in range(1, n - 1):
+        faces += [[0, i + 1, i], [n, n + i, n + i + 1]]          # bottom (normal -z) and top (normal +z) fans
+    for dn in ((9, 3) if tier == 'quick' else (1, 3, 9, 13, 15)):
+        out.append({'m': 'section', 'op': 'section', 'wd': 8000, 'name': 'prism80', 'vpos': vpos, 'faces': faces, 'convex': True,
+                    'n': [0, 0, 1], 'dn': dn, 'dd': 8, 'T': IDENT})
+    for k in range(2 if tier == 'quick' else 12):
+        va, fa = _box(0, 0, 8, 8, 2, 0)
+        vb, fb = _box(12 + rnd.randint(0, 3), rnd.randint(0, 5), 1, 1, 2, 8)
+        out.append({'m': 'section', 'op': 'section', 'wd': 4000, 'name': 'box_and_column', 'vpos': va + vb, 'faces': fa + fb, 'convex': False,
+                    'n': [0, 0, 1], 'dn': rnd.choice((9, 7)), 'dd': 8, 'T': IDENT, 'stol16': 24, 'keep': 12})
     return out
